@@ -186,6 +186,20 @@ def gen_path(rng, ext='.jpg'):
     return p if is_wf_str(p, False) and not p.startswith('/') else 'img' + ext
 
 
+def denormalise(rng, p):
+    """the same file under a spelling that is not in os.path.normpath form (a legal identifier all the same)"""
+    c = rng.choice(['dot', 'double', 'updir', 'updir'])
+    if c == 'dot':
+        return './' + p
+    if c == 'double' and '/' in p:
+        return p.replace('/', '//', 1)
+    return gen_name_component(rng, fancy=0.0) + '/../' + p
+
+
+def is_normalised(p):
+    return os.path.normpath(p).replace('\\', '/') == p
+
+
 def gen_timestamp(rng):
     c = rng.choice(['small', 'small', 'small', 'neg', 'big19', 'zero', 'mid'])
     if c == 'small':
@@ -349,7 +363,16 @@ def gen_dataset(rng, present=None, size=None, nested_rigs=False, rig_order=None,
         return keys
     for part, ext in [('records_camera', '.jpg'), ('records_depth', '.depth'), ('records_lidar', '.pcd')]:
         if part in present:
-            d[part] = [[ts, dev, gen_path(rng, ext)] for ts, dev in rec_keys(part)]
+            rows, norm_seen = [], set()
+            for ts, dev in rec_keys(part):
+                pth = gen_path(rng, ext)
+                if rng.random() < 0.25:
+                    pth = denormalise(rng, pth)
+                if os.path.normpath(pth) in norm_seen:
+                    continue                          # two spellings of one file would share their feature files
+                norm_seen.add(os.path.normpath(pth))
+                rows.append([ts, dev, pth])
+            d[part] = rows
     if 'records_wifi' in present:
         rows = []
         for ts, dev in rec_keys('records_wifi'):
@@ -406,9 +429,11 @@ def gen_dataset(rng, present=None, size=None, nested_rigs=False, rig_order=None,
                 continue
             seen.add(kt)
             pairs = set()
-            if len(images) >= 2:
+            # match files are named after the images: a pair is identified by the normalised spelling of its paths
+            mimages = [i for i in images if is_normalised(i)]
+            if len(mimages) >= 2:
                 for _ in range(rng.randint(1, 4)):
-                    a, b = rng.sample(images, 2)
+                    a, b = rng.sample(mimages, 2)
                     pairs.add((a, b) if a < b else (b, a))
             if not pairs:
                 continue          # an empty match set has no representation on disk
@@ -947,7 +972,7 @@ def cam_canon(tok):
 _TOKEN_OK = re.compile(r'^[\x21-\x7e]{1,400}$')
 
 
-def float_tables(bits, texts, p3d_bits=()):
+def float_tables(bits, texts, p3d_bits=(), paths=()):
     """Coq term of type MCodec.ftabs: repr for the floats of the case, float() for every field of the texts that
     CPython's float accepts, '%.10f' for the point coordinates, Camera's canonical strings.
     Every entry is validated against CPython (float(repr(x)) is bit-identical to x)."""
@@ -981,11 +1006,30 @@ def float_tables(bits, texts, p3d_bits=()):
         c = cam_canon(tok)
         if c is not None:
             cam.append((tok, c))
-    return ('{| ft_show := %s; ft_read := %s; ft_fmt10 := %s; ft_cam := %s |}' % (
+    norm = sorted({(q, path_secure_py(q)) for q in paths if path_secure_py(q) != q})
+    return ('{| ft_show := %s; ft_read := %s; ft_fmt10 := %s; ft_cam := %s; ft_norm := %s |}' % (
         kv.clist(kv.cpair(kv.cn(b), kv.cstr(s)) for b, s in show),
         kv.clist(kv.cpair(kv.cstr(t), kv.cn(b)) for t, b in read),
         kv.clist(kv.cpair(kv.cn(b), kv.cstr(s)) for b, s in f10),
-        kv.clist(kv.cpair(kv.cstr(t), kv.cstr(c)) for t, c in cam)))
+        kv.clist(kv.cpair(kv.cstr(t), kv.cstr(c)) for t, c in cam),
+        kv.clist(kv.cpair(kv.cstr(a), kv.cstr(b)) for a, b in norm)))
+
+
+def path_secure_py(p):
+    """kapture.utils.paths.path_secure"""
+    from kapture.utils.paths import path_secure
+    return path_secure(p)
+
+
+def image_paths(d):
+    out = set()
+    for r in (d.get('records_camera') or []):
+        out.add(r[2])
+    for kt, pairs in (d.get('matches') or []):
+        for a, b in pairs:
+            out.add(a)
+            out.add(b)
+    return out
 
 
 def p3d_float_bits(d):
@@ -999,7 +1043,7 @@ def p3d_float_bits(d):
 
 
 # ------------------------------------------------------------------------------------------------ running a data case
-def run_data_case(d, tmp, name='k1', mutations=None):
+def run_data_case(d, tmp, name='k1', mutations=None, symlink_features=False):
     """save with the real kapture_to_dir, load with the real kapture_from_dir, save again.
     With mutations: the objects are first saved to another directory, edited in memory through the public API, and
     THEN saved / loaded; obs['current'] is the content held in memory at that moment (read through the accessors),
@@ -1025,6 +1069,8 @@ def run_data_case(d, tmp, name='k1', mutations=None):
         os.makedirs(root, exist_ok=True)
         kcsv.kapture_to_dir(root, k)
         write_data_files(d, root)
+        if symlink_features:
+            obs['symlinked'] = symlink_feature_subdirs(d, root, os.path.join(tmp, name + '_linked'))
         obs['files'] = read_text_files(root)
     except Exception as e:
         obs['save_exc'] = f'{type(e).__name__}: {e}'
@@ -1053,7 +1099,32 @@ def run_data_case(d, tmp, name='k1', mutations=None):
             obs['resave_exc'] = f'{type(e).__name__}: {e}'
     shutil.rmtree(root, ignore_errors=True)
     shutil.rmtree(root2, ignore_errors=True)
+    shutil.rmtree(os.path.join(tmp, name + '_linked'), ignore_errors=True)
     return obs
+
+
+def symlink_feature_subdirs(d, root, outside):
+    """storage layout variation: one sub-directory of every feature type directory is moved out of the dataset and
+    replaced by a symbolic link to it (feature folders on another disk)"""
+    import kapture
+    import kapture.io.features as kf
+    n = 0
+    shutil.rmtree(outside, ignore_errors=True)
+    for part, cls in [('keypoints', kapture.Keypoints), ('descriptors', kapture.Descriptors),
+                      ('global_features', kapture.GlobalFeatures)]:
+        for row in (d[part] or []):
+            fdir = kf.get_features_fullpath(cls, row[0], root)
+            if not os.path.isdir(fdir):
+                continue
+            subs = sorted(x for x in os.listdir(fdir)
+                          if os.path.isdir(os.path.join(fdir, x)) and not os.path.islink(os.path.join(fdir, x)))
+            if subs:
+                os.makedirs(outside, exist_ok=True)
+                target = os.path.join(outside, 'd%d' % n)
+                shutil.move(os.path.join(fdir, subs[0]), target)
+                os.symlink(target, os.path.join(fdir, subs[0]))
+                n += 1
+    return n
 
 
 def run_history(steps, tmp, tag=''):
@@ -1126,7 +1197,7 @@ def encode_data_case(d, obs):
     texts = list(files.values())
     bits = all_floats(d) | (all_floats(loaded) if loaded else set())
     pb = p3d_float_bits(d) | (p3d_float_bits(loaded) if loaded else set())
-    ft = float_tables(bits, texts, pb)
+    ft = float_tables(bits, texts, pb, image_paths(d) | (image_paths(loaded) if loaded else set()))
     tfiles = []
     for part in TABLE_PARTS:
         if pp[part] in files:
